@@ -95,6 +95,17 @@ def probes():
     return out
 
 
+def multi_iteration(t):
+    """the expression contains a for / some / every with two or more iteration variables (the input class of the finding empty-domain)"""
+    if isinstance(t, tuple):
+        if len(t) >= 2 and t[0] in ('for', 'some', 'every') and isinstance(t[1], tuple) and len(t[1]) >= 2:
+            return True
+        return any(multi_iteration(x) for x in t)
+    if isinstance(t, list):
+        return any(multi_iteration(x) for x in t)
+    return False
+
+
 def run(ctx):
     ctx.proof_gate()
     ctx.build_harness()
@@ -182,8 +193,9 @@ def run(ctx):
             continue
         if iv == mv and mv != spec:
             # the code is the ImplModel, and ImplModel and Spec differ only in the enumeration of iteration tuples (cart_impl vs cart):
-            # this case is in the listed class `empty-domain` (a list domain is empty while another domain is not)
-            if not ctx.known('empty-domain', case):
+            # this case is in the listed class `empty-domain` (a list domain is empty while another domain is not) -- and the class is
+            # tested on the INPUT as well: the expression must contain a for / some / every with two or more variables
+            if not (multi_iteration(e) and ctx.known('empty-domain', case)):
                 ctx.violation('evaluates to %s, the FEEL semantics gives %s (an iteration with an empty domain must be empty)' % (json.dumps(iv)[:200], json.dumps(spec)[:200]), case, impl=iv, model=spec)
             continue
         if iv != mv:
